@@ -84,7 +84,8 @@ def parserOp : List String → Option String
         let typed := match Headers.canonOf q with
           | some c => p'.msg.typed.any (fun (pr : String × List Nat) => pr.1 == c)
           | none => false
-        (match raw with | some v => toHex v | none => "~") ++ (if typed then "/T" else "/-")
+        -- the typed collection keeps the first occurrence of a field (Collection::add is an insert): "/T1"
+        (match raw with | some v => toHex v | none => "~") ++ (if typed then "/T1" else "/-")
       pure ("ok " ++ " ".intercalate parts)
     | .unspec => pure "unspecified"
     | _ => pure (outs.getLastD "A")
